@@ -163,6 +163,9 @@ Proof.
     apply chunks_concat. apply div_ceil_pos; lia.
 Qed.
 
+Lemma nolen_source_coherent_local : forall t d, coherent (nolen_source t d).
+Proof. intros t d n. exact (vec_source_coherent_local t d n). Qed.
+
 Lemma sharded_source_coherent_local : forall t shards n, coherent (sharded_source t shards n).
 Proof. intros t shards n k. reflexivity. Qed.
 
@@ -173,6 +176,7 @@ Definition src_source (s : src) : source :=
   match s with
   | SrcVec t d => vec_source t d
   | SrcSharded t sh n => sharded_source t sh n
+  | SrcNoLen t d => nolen_source t d
   end.
 
 Lemma src_node_source : forall s, src_node s = NB (BSource (src_source s)).
@@ -183,7 +187,8 @@ Lemma src_source_all : forall s, s_all (src_source s) = src_data s.
 Proof. intros s. destruct s; reflexivity. Qed.
 Lemma src_source_coherent : forall s, coherent (src_source s).
 Proof.
-  intros s. destruct s; [apply vec_source_coherent_local | apply sharded_source_coherent_local].
+  intros s. destruct s; [apply vec_source_coherent_local | apply sharded_source_coherent_local
+                | apply nolen_source_coherent_local].
 Qed.
 
 (* the operator an element-wise step is compiled to, given the current tag and operator id
